@@ -82,6 +82,10 @@ CHECKS["C20"] = dict(engine="E1", technique="runtime monitoring: export of an E1
              text="Exploration of source histories and import orders; equality is checked on everything the other properties observe (both read paths, get, heads, raw index partitions, CAS bytes, accept/reject of appends per context id), plus idempotence of re-import and whole rejection of NUL-topic frames.",
              note=E1_NOTE, ref="§8 C20")
 
+CHECKS["C04"] = dict(engine="E3", category="fault_enumeration", technique="runtime monitoring with fault enumeration: strace-recorded storage syscalls replayed into kill / torn-write / power-loss crash images at every effective syscall boundary, each recovered by the real Store::new and compared with the model of the acknowledged operations; plus live SIGKILLs",
+             text="Fault enumeration: within a recorded execution every syscall that changes the store directory is a crash point (with cuts inside writes and a stated power-loss model), so the all-or-nothing and acknowledged-writes-survive clauses are decided at system-call granularity on the real recovery code; across executions (histories, layouts) it is sampling. A fidelity self-check ties the emulator to the live directory.",
+             note="Trusted base: strace's log as the total order of storage syscalls and acknowledgements; the file-system emulator in crash/replay.py (self-checked against the live directory on every run); the stated power-loss model; CAS content copied from the live directory after its publishing rename.", ref="§7 E3, §8 C04, App. A.9")
+
 NOT_YET = {
 }
 
@@ -121,6 +125,7 @@ def main():
             {"name": "E6", "path": "harness/src/e6.rs", "serves_properties": ["C12"], "kind_free_text": "codec round-trip generators + store poison leg"},
             {"name": "E4", "path": "harness/src/e4.rs", "serves_properties": ["C13", "C06", "C10", "C20"], "kind_free_text": "HTTP differential tester (raw client over the unix socket)"},
             {"name": "E5", "path": "harness/src/e5.rs", "serves_properties": ["C14", "C15", "C16", "C17", "C18", "C19", "C06", "C10"], "kind_free_text": "component trace checker over the global frame log of a real serve process"},
+            {"name": "E3", "path": "harness/src/e3.rs + crash/replay.py", "serves_properties": ["C04"], "kind_free_text": "crash explorer: strace log -> crash images -> real recovery"},
             {"name": "E2", "path": "harness/src/e2.rs", "serves_properties": ["C02", "C03", "C11"], "kind_free_text": "in-process concurrency stress with sync-point schedule perturbation; history checkers at the client boundary"},
         ],
         "checks": checks,
